@@ -150,6 +150,14 @@ let handle_jt = function
       Printf.sprintf "%s %s docs:%d %s" id fin (List.length (fst r)) (hex_of_bytes (jm_output r))
   | _ -> failwith "bad JT line"
 
+(* JW <id> <hex>: JSON -> JSON through the reader and writer models (float-free, fully translated inputs only) *)
+let handle_jw = function
+  | [ id; data ] ->
+      (match json_to_json (bytes_of_hex data) with
+      | None -> id ^ " none"
+      | Some out -> id ^ " " ^ hex_of_bytes out)
+  | _ -> failwith "bad JW line"
+
 let handle_md = function
   | [ id; data ] -> id ^ " " ^ if msgpack_matches utf8_valid (bytes_of_hex data) then "match" else "nomatch"
   | _ -> failwith "bad MD line"
@@ -511,6 +519,7 @@ let () =
           | "MT" :: rest -> handle_mt rest
           | "MD" :: rest -> handle_md rest
           | "JT" :: rest -> handle_jt rest
+          | "JW" :: rest -> handle_jw rest
           | k :: _ -> failwith ("unknown case kind " ^ k)
           | [] -> ""
         in
